@@ -14,7 +14,7 @@ use std::collections::BTreeSet;
 const STREAM: u64 = 1;
 
 pub fn run(ctx: &Ctx) -> Report {
-    let n = ctx.cases(100_000, 5_000_000);
+    let n = ctx.cases(300_000, 6_000_000);
     let local = run_cases(ctx, n, |case, l| one_case(ctx, case, l));
     let mut rep = Report::new(
         "exploration",
